@@ -163,8 +163,8 @@ def check(ctx):
     if not ok:
         ctx.violation("R-C11.4", f"coord-callers:{sorted(callers)}", f"_coord reads the lexer's *current* file name; it is called from {sorted(callers)}: only _tok_coord (fallback) and _lex_error_func (lex time) may use it", file=px.rel, function="CParser._coord")
     # ---- R-C11.6 ---------------------------------------------------------------------------
-    k2 = WCm.run_group(ctx, "R-C11.6", allm, lambda label, field: label == "call:_parse_error" and field in ("p1", "p1@coord"), "error location deviates from the reviewed reference", returns=False, appends=False,
-                       label_filter=lambda lab: lab == "call:_parse_error")
+    k2 = WCm.run_group(ctx, "R-C11.6", allm, lambda label, field: label == "call:_parse_error" and field in ("p0", "p1", "p1@coord"), "error location deviates from the reviewed reference", returns=False, appends=False,
+                       label_filter=lambda lab: lab == "call:_parse_error", global_records=True)
     mt = lx.method("CLexer", "_match_token")
     ill = [c for c in ast.walk(mt) if isinstance(c, ast.Call) and getattr(c.func, "attr", "") == "_error" and c.args and "Illegal character" in S.unparse(c.args[0])]
     ok = False
